@@ -352,6 +352,45 @@ def exp_pauli_rows(word, c, n, A):
     return rows_add(identity_rows(n, A, cc), pauli_rows(word, n, A, -A.i * ss), A)
 
 
+def apply_pauli_rows(rows, word, n, A, coef=None):
+    """coef * P(word) @ rows  (a signed row permutation: cheap)"""
+    letters = [(q, p) for q, p in word if p != "I"]
+    out = {}
+    for r, row in rows.items():
+        # P|r> = phase |r'>  =>  (P @ M)[r'] = phase * M[r]
+        r2 = r
+        ph = A.one if coef is None else coef
+        for q, p in letters:
+            bit = (r >> (n - 1 - q)) & 1
+            if p == "X":
+                r2 ^= 1 << (n - 1 - q)
+            elif p == "Y":
+                r2 ^= 1 << (n - 1 - q)
+                ph = ph * (A.i if bit == 0 else -A.i)
+            elif p == "Z" and bit:
+                ph = -ph
+        out[r2] = {j: v * ph for j, v in row.items()}
+    return out
+
+
+def apply_exp_pauli(rows, word, c, n, A, controls=None):
+    """exp(-i c P(word)) @ rows  (on the subspace where all controls are 1; identity elsewhere)"""
+    word = [(q, p) for q, p in word if p != "I"]
+    cmask = 0
+    for q in controls or []:
+        cmask |= 1 << (n - 1 - q)
+    act = {r: row for r, row in rows.items() if (r & cmask) == cmask}
+    rest = {r: row for r, row in rows.items() if (r & cmask) != cmask}
+    if not word:
+        ph = A.expi(-c) if A is Numeric else ring.expi(-as_angle(c))
+        new = rows_scale(act, ph, A)
+    else:
+        cc, ss = A.cos(c), A.sin(c)
+        new = rows_add(rows_scale(act, cc, A), apply_pauli_rows(act, word, n, A, -A.i * ss), A)
+    new.update(rest)
+    return new
+
+
 def controlled_rows(rows, controls, n, A):
     """|not all controls 1> : identity ;  |all controls 1> : rows (rows must act trivially on the control qubits)"""
     cmask = 0
